@@ -1,4 +1,21 @@
 // L7: slice-level code under the heap-allocated BoxedUint division (src/uint/boxed/div.rs, src/uint/boxed/div_limb.rs) -- C02
+//
+// body (proved): shl_limb_vartime, shr_limb_vartime, div_rem_vartime_in_place (Knuth D in place on slices; invariants and
+//   lemmas of the fixed-width twin Uint::div_rem_vartime, l3_div_vt.rs, with LIMBS replaced by the slice lengths),
+//   boxed div_rem_limb_with_reciprocal / rem_limb_with_reciprocal (twins of l3_divlimb.rs), `impl BitOr for Limb`,
+//   `ShlAssign<u32>` / `ShrAssign<u32> for Limb`.
+// assumed: `BoxedUint::shl_limb` (stub region), `Shl<u32>` / `Shr<u32> for Limb` (hand-instantiated macro arms, see below).
+// div_rem_vartime_in_place: besides its documented panic (empty divisor / zero leading divisor limb) the function indexes
+//   `y[yc - 2]` and `x[xi - 1]`, i.e. it also panics for a one-limb divisor with a non-empty dividend; every caller in /repo
+//   dispatches one-limb divisors to limb division first, so the contract carries `x.len() == 0 || y.len() >= 2`.
+// dev: VOUT=/verif/.work/l7_boxed_div /verif/tools/vrun.sh "speclib speclib_bits l0_corespec l0_prim l1_choice l1_limb l2_concat
+//   l2_core l2_shift l3_div_vt l3_divlimb l3_karatsuba l3_mul l4_modular l5_monty l7_boxed_slices l7_boxed_div" --verify-only-module l7_boxed_div
+//
+// Library functions used here: `<[T]>::copy_from_slice`, `<[T]>::copy_within`, range indexing of `&mut [T]`, `for` over
+// `Range` / `Rev<Range>` are specified by vstd; `<[T]>::fill` has no vstd specification, it is assumed in
+// l7_boxed_slices.rs (a crate may hold one specification per function), so this unit needs l7_boxed_slices in the crate.
+// `for` loops: the extracted loop header has no iterator name; the annotations name the ghost iterator of the Verus
+// `for` expansion by its default name `VERUS_ghost_iter` (`.index@` = number of completed iterations).
 use vstd::prelude::*;
 use vstd::arithmetic::power::*;
 use vstd::arithmetic::power2::*;
@@ -12,11 +29,725 @@ use crate::l1_choice::*;
 use crate::l1_limb::*;
 use crate::l2_core::*;
 use crate::l3_divlimb::*;
+#[allow(unused_imports)]
+use crate::l7_boxed_slices::*;   // holds the assumed specification of `<[T]>::fill` (one per crate): must be in the crate
 verus! {
+
+// ---------------------------------------------------------------- operators of Limb used by the slice code
+// `impl_shl!(i32, u32, usize)` / `impl_shr!(i32, u32, usize)` (src/limb/shl.rs, src/limb/shr.rs) generate
+//     impl Shl<$shift> for Limb { fn shl(self, shift: $shift) -> Limb { Self::shl(self, u32::try_from(shift).expect("invalid shift")) } }
+//     impl ShlAssign<$shift> for Limb { fn shl_assign(&mut self, shift: $shift) { *self = *self << shift; } }
+// (same for shr). The `//@@ macrofn` extractor cannot instantiate these arms (the arm body is a `$( .. )+` repetition and holds
+// two fns called `shl`), so the `$shift = u32` instances are written out by hand here:
+//  * `Shl<u32>` / `Shr<u32>`: ASSUMED (external_body). vstd has no specification for the identity conversion
+//    `u32::try_from(u32)`, so the body cannot be checked; the contract is that of the inherent `Limb::shl` / `Limb::shr`
+//    (shift < 64 required: the inherent function traps on overflow in the checked profile).
+//  * `ShlAssign<u32>` / `ShrAssign<u32>`: bodies verified against the operator above.
+impl vstd::std_specs::ops::ShlSpecImpl<u32> for Limb {
+    open spec fn obeys_shl_spec() -> bool { true }
+    open spec fn shl_req(self, rhs: u32) -> bool { rhs < 64 }
+    open spec fn shl_spec(self, rhs: u32) -> Limb { Limb(self.0 << rhs) }
+}
+impl Shl<u32> for Limb {
+    type Output = Limb;
+    #[verifier::external_body]
+    fn shl(self, shift: u32) -> (ret__: Limb)
+    { Self::shl(self, u32::try_from(shift).expect("invalid shift")) }
+}
+impl vstd::std_specs::ops::ShrSpecImpl<u32> for Limb {
+    open spec fn obeys_shr_spec() -> bool { true }
+    open spec fn shr_req(self, rhs: u32) -> bool { rhs < 64 }
+    open spec fn shr_spec(self, rhs: u32) -> Limb { Limb(self.0 >> rhs) }
+}
+impl Shr<u32> for Limb {
+    type Output = Limb;
+    #[verifier::external_body]
+    fn shr(self, shift: u32) -> (ret__: Limb)
+    { Self::shr(self, u32::try_from(shift).expect("invalid shift")) }
+}
+impl vstd::std_specs::ops::ShlAssignSpecImpl<u32> for Limb {
+    open spec fn obeys_shl_assign_spec() -> bool { true }
+    open spec fn shl_assign_req(&self, rhs: u32) -> bool { rhs < 64 }
+    open spec fn shl_assign_spec(&self, rhs: u32) -> &Limb { &Limb(self.0 << rhs) }
+}
+impl ShlAssign<u32> for Limb {
+    fn shl_assign(&mut self, shift: u32)
+    { *self = *self << shift; }
+}
+impl vstd::std_specs::ops::ShrAssignSpecImpl<u32> for Limb {
+    open spec fn obeys_shr_assign_spec() -> bool { true }
+    open spec fn shr_assign_req(&self, rhs: u32) -> bool { rhs < 64 }
+    open spec fn shr_assign_spec(&self, rhs: u32) -> &Limb { &Limb(self.0 >> rhs) }
+}
+impl ShrAssign<u32> for Limb {
+    fn shr_assign(&mut self, shift: u32)
+    { *self = *self >> shift; }
+}
+impl vstd::std_specs::ops::BitOrSpecImpl<Limb> for Limb {
+    open spec fn obeys_bitor_spec() -> bool { true }
+    open spec fn bitor_req(self, rhs: Limb) -> bool { true }
+    open spec fn bitor_spec(self, rhs: Limb) -> Limb { Limb(self.0 | rhs.0) }
+}
+
+// ---------------------------------------------------------------- lemmas copied from l3_div_vt.rs (private there)
+// ---------------------------------------------------------------- limb-shift lemmas (shl_limb_vartime / shr_limb_vartime)
+
+/// `(a << l) | (b >> (64-l))` has disjoint bit ranges, so the OR is a sum
+proof fn lemma_or_is_add(a: u64, b: u64, l: u32)
+    requires 0 < l < 64
+    ensures ((a << l) | (b >> ((64 - l) as u32))) as int == (a << l) as int + (b >> ((64 - l) as u32)) as int
+{
+    let r = (64 - l) as u32;
+    let x = a << l; let y = b >> r;
+    assert(x & y == 0) by (bit_vector) requires 0 < l < 64, r == (64 - l) as u32, x == a << l, y == b >> r;
+    assert((x | y) as int == x as int + y as int) by (bit_vector) requires x & y == 0;
+}
+
+/// t = s shifted left by l bits inside n limbs; the bits shifted out of the top limb are the carry
+proof fn lemma_shl_limbs(s: Seq<Limb>, t: Seq<Limb>, n: nat, l: u32)
+    requires 0 < l < 64, n >= 1, t[0].0 == s[0].0 << l,
+        forall|j: int| 1 <= j < n ==> t[j].0 == (s[j].0 << l) | (s[j - 1].0 >> ((64 - l) as u32)),
+    ensures val(t, n) + (s[n - 1].0 >> ((64 - l) as u32)) as int * bp(n) == val(s, n) * p2(l as nat),
+    decreases n
+{
+    let r = (64 - l) as u32;
+    let ps = p2(l as nat);
+    lemma_bp1();
+    if n == 1 {
+        lemma_limb_shl_split(s[0].0, l);
+        assert(val(t, 1) == val(t, 0) + t[0].0 as int * bp(0));
+        assert(val(s, 1) == val(s, 0) + s[0].0 as int * bp(0));
+        assert(val(t, 0) == 0 && val(s, 0) == 0);
+    } else {
+        let m = (n - 1) as nat;
+        lemma_shl_limbs(s, t, m, l);
+        lemma_limb_shl_split(s[m as int].0, l);
+        lemma_or_is_add(s[m as int].0, s[m - 1].0, l);
+        lemma_bp_succ(m);
+        let lo = (s[m as int].0 << l) as int; let hi = (s[m as int].0 >> r) as int; let hp = (s[m - 1].0 >> r) as int;
+        let pm = bp(m); let sm = s[m as int].0 as int; let tm = t[m as int].0 as int;
+        assert(tm == lo + hp);
+        assert(val(t, n) == val(t, m) + tm * pm);
+        assert(val(s, n) == val(s, m) + sm * pm);
+        assert(tm * pm + hi * (B() * pm) == hp * pm + (sm * ps) * pm) by (nonlinear_arith)
+            requires tm == lo + hp, lo + hi * B() == sm * ps;
+        assert((val(s, m) + sm * pm) * ps == val(s, m) * ps + (sm * ps) * pm) by (nonlinear_arith);
+    }
+}
+
+/// t[j] = (s[j] >> r) | (s[j+1] << (64-r)) for j < m: prefix relation
+proof fn lemma_shr_limbs(s: Seq<Limb>, t: Seq<Limb>, m: nat, r: u32)
+    requires 0 < r < 64,
+        forall|j: int| 0 <= j < m ==> t[j].0 == (s[j].0 >> r) | (s[j + 1].0 << ((64 - r) as u32)),
+    ensures p2(r as nat) * val(t, m) + p2(r as nat) * (s[m as int].0 >> r) as int * bp(m)
+            + (s[0].0 as int - p2(r as nat) * (s[0].0 >> r) as int) == val(s, m + 1),
+    decreases m
+{
+    let l = (64 - r) as u32;
+    let pr = p2(r as nat);
+    lemma_bp1();
+    if m == 0 {
+        assert(val(s, 1) == val(s, 0) + s[0].0 as int * bp(0));
+        assert(val(s, 0) == 0 && val(t, 0) == 0);
+        let h0 = (s[0].0 >> r) as int;
+        assert(pr * 0 + pr * h0 * 1 + (s[0].0 as int - pr * h0) == s[0].0 as int) by (nonlinear_arith);
+    } else {
+        let k = (m - 1) as nat;
+        lemma_shr_limbs(s, t, k, r);
+        let a = s[k as int].0; let b = s[m as int].0;
+        lemma_or_is_add(b, a, l);
+        assert((b << l) | (a >> r) == (a >> r) | (b << l)) by (bit_vector);
+        lemma_limb_shl_split(b, l);
+        lemma_pow2_adds(r as nat, l as nat);
+        lemma_pow2_64();
+        lemma_bp_succ(k);
+        let pl = p2(l as nat);
+        let ha = (a >> r) as int; let hb = (b >> r) as int; let lb = (b << l) as int;
+        let tk = t[k as int].0 as int; let pk = bp(k); let bi = b as int;
+        assert(tk == ha + lb);
+        assert(pr * pl == B());
+        assert(lb + hb * B() == bi * pl);
+        // pr * tk == pr*ha + B*(b - pr*hb)
+        assert(pr * tk == pr * ha + B() * (bi - pr * hb)) by (nonlinear_arith)
+            requires tk == ha + lb, lb + hb * B() == bi * pl, pr * pl == B();
+        assert(val(t, m) == val(t, k) + tk * pk);
+        assert(val(s, m + 1) == val(s, m) + bi * bp(m));
+        assert(pr * (val(t, k) + tk * pk) + pr * hb * (B() * pk) == pr * val(t, k) + pr * ha * pk + bi * (B() * pk)) by (nonlinear_arith)
+            requires pr * tk == pr * ha + B() * (bi - pr * hb);
+    }
+}
+
+// ---------------------------------------------------------------- Knuth algorithm D lemmas
+
+/// quotient digit estimate from the top 3 by 2 limbs is the true digit or one more
+proof fn lemma_knuth_digit(wv: int, y: int, u3: int, v2: int, wl: int, yl: int, e: int, q: int)
+    requires
+        e >= 1, wv == u3 * e + wl, 0 <= wl < e, y == v2 * e + yl, 0 <= yl < e,
+        0 <= wv < y * B(), 2 * y >= B() * B() * e, u3 >= 0, v2 > 0,
+        q == min_int(B() - 1, u3 / v2),
+    ensures
+        wv / y <= q <= wv / y + 1, 0 <= wv / y <= B() - 1,
+{
+    let b = B();
+    let qt = wv / y;
+    assert(y > 0) by (nonlinear_arith) requires 2 * y >= b * b * e, e >= 1, b == B();
+    lemma_fundamental_div_mod(wv, y);
+    lemma_mod_bound(wv, y);
+    lemma_div_pos_is_pos(wv, y);
+    assert(y * qt == qt * y) by (nonlinear_arith);
+    assert(qt * y <= wv < (qt + 1) * y) by (nonlinear_arith) requires wv == y * qt + wv % y, 0 <= wv % y < y;
+    // qt <= b-1
+    assert(qt < b) by (nonlinear_arith) requires qt * y <= wv, wv < y * b, y > 0;
+    let q3 = u3 / v2;
+    lemma_fundamental_div_mod(u3, v2);
+    lemma_mod_bound(u3, v2);
+    lemma_div_pos_is_pos(u3, v2);
+    assert(v2 * q3 == q3 * v2) by (nonlinear_arith);
+    assert(q3 * v2 <= u3 < (q3 + 1) * v2) by (nonlinear_arith) requires u3 == v2 * q3 + u3 % v2, 0 <= u3 % v2 < v2;
+    // qt <= q3
+    assert(qt * (v2 * e) <= qt * y) by (nonlinear_arith) requires qt >= 0, y == v2 * e + yl, yl >= 0;
+    assert(qt * (v2 * e) == qt * v2 * e) by (nonlinear_arith);
+    assert(qt * v2 < u3 + 1) by (nonlinear_arith) requires qt * v2 * e <= wv, wv == u3 * e + wl, wl < e, e >= 1;
+    assert(qt < q3 + 1) by (nonlinear_arith) requires qt * v2 <= u3, u3 < (q3 + 1) * v2, v2 > 0;
+    assert(qt <= q);
+    // q <= qt + 1
+    if q >= qt + 2 {
+        assert(q <= q3);
+        assert(q * v2 <= u3) by (nonlinear_arith) requires q <= q3, q3 * v2 <= u3, v2 > 0;
+        assert((qt + 2) * v2 <= q * v2) by (nonlinear_arith) requires qt + 2 <= q, v2 > 0;
+        assert((qt + 2) * v2 * e <= u3 * e) by (nonlinear_arith) requires (qt + 2) * v2 <= u3, e >= 1;
+        // (qt+2)*v2*e = (qt+2)*(y - yl)
+        assert((qt + 2) * v2 * e == (qt + 2) * y - (qt + 2) * yl) by (nonlinear_arith) requires y == v2 * e + yl;
+        assert((qt + 2) * yl <= (qt + 2) * e) by (nonlinear_arith) requires qt + 2 >= 0, yl <= e;
+        // wv >= u3*e >= (qt+2)*y - (qt+2)*e ; wv < (qt+1)*y  => y < (qt+2)*e
+        assert((qt + 2) * y == (qt + 1) * y + y) by (nonlinear_arith);
+        assert(y < (qt + 2) * e);
+        assert((qt + 2) * e <= (b + 1) * e) by (nonlinear_arith) requires qt + 2 <= b + 1, e >= 1;
+        assert(b * b * e > 2 * ((b + 1) * e)) by (nonlinear_arith) requires e >= 1, b == 0x1_0000_0000_0000_0000;
+        assert(false);
+    }
+}
+
+/// shifting a limb sequence down by d positions
+proof fn lemma_shift_down(s: Seq<Limb>, t: Seq<Limb>, d: nat, n: nat, m: nat)
+    requires m + d <= n, forall|j: int| 0 <= j < m ==> t[j] == s[j + d],
+    ensures val(t, m) * bp(d) == tv(s, d, m + d),
+    decreases m
+{
+    if m > 0 {
+        lemma_shift_down(s, t, d, n, (m - 1) as nat);
+        lemma_bp_add((m - 1) as nat, d);
+        let a = t[m - 1].0 as int;
+        assert(t[m - 1] == s[m - 1 + d]);
+        assert((val(t, (m - 1) as nat) + a * bp((m - 1) as nat)) * bp(d) == val(t, (m - 1) as nat) * bp(d) + a * (bp((m - 1) as nat) * bp(d))) by (nonlinear_arith);
+        assert((m - 1 + d) as nat == (m + d - 1) as nat);
+    } else {
+        assert(0 * bp(d) == 0);
+    }
+}
+
+/// tv(s, p, n) / B^p
+spec fn tvq(s: Seq<Limb>, p: nat, n: nat) -> int
+    decreases n
+{ if n <= p { 0 } else { tvq(s, p, (n - 1) as nat) + s[n - 1].0 as int * bp((n - 1 - p) as nat) } }
+
+proof fn lemma_tv_factor(s: Seq<Limb>, p: nat, n: nat)
+    requires p <= n
+    ensures tv(s, p, n) == bp(p) * tvq(s, p, n), tvq(s, p, n) >= 0
+    decreases n - p
+{
+    if n > p {
+        lemma_tv_factor(s, p, (n - 1) as nat);
+        lemma_bp_add(p, (n - 1 - p) as nat);
+        lemma_bp_succ((n - 1 - p) as nat);
+        let a = s[n - 1].0 as int; let e = bp((n - 1 - p) as nat);
+        assert((p + (n - 1 - p)) as nat == (n - 1) as nat);
+        assert(bp(p) * (tvq(s, p, (n - 1) as nat) + a * e) == bp(p) * tvq(s, p, (n - 1) as nat) + a * (bp(p) * e)) by (nonlinear_arith);
+        assert(a * e >= 0) by (nonlinear_arith) requires a >= 0, e > 0;
+    } else {
+        assert(bp(p) * 0 == 0);
+    }
+}
+
+/// a normalised divisor has the top bit of its top limb set
+proof fn lemma_knuth_top_norm(ys: Seq<Limb>, yc: nat)
+    requires yc >= 1, 2 * val(ys, yc) >= bp(yc)
+    ensures ys[yc - 1].0 as int >= B() / 2, ys[yc - 1].0 != 0
+{
+    lemma_val_bound(ys, (yc - 1) as nat);
+    lemma_bp_succ((yc - 1) as nat);
+    let top = ys[yc - 1].0 as int; let pt = bp((yc - 1) as nat);
+    assert(2 * top >= B() - 1) by (nonlinear_arith)
+        requires 2 * (val(ys, (yc - 1) as nat) + top * pt) >= B() * pt, val(ys, (yc - 1) as nat) <= pt - 1, pt > 0;
+}
+
+/// undo the normalisation: the remainder of the shifted problem is the shifted remainder
+proof fn lemma_knuth_unshift(sv: int, rv: int, s2: int, qacc: int, rem_n: int, hi: int, lo: int)
+    requires s2 > 0, rv > 0, sv * s2 == qacc * (rv * s2) + rem_n, rem_n == hi + lo, hi >= 0, lo >= 0, rem_n < rv * s2,
+    ensures qacc * rv + rem_n / s2 == sv, 0 <= rem_n / s2 < rv
+{
+    let rr = sv - qacc * rv;
+    assert(rem_n == rr * s2) by (nonlinear_arith) requires sv * s2 == qacc * (rv * s2) + rem_n, rr == sv - qacc * rv;
+    assert(0 <= rr < rv) by (nonlinear_arith) requires rem_n == rr * s2, 0 <= rem_n, rem_n < rv * s2, s2 > 0;
+    lemma_div_multiples_vanish(rr, s2);
+    assert(rr * s2 == s2 * rr) by (nonlinear_arith);
+    lemma_div_by_multiple(rr, s2);
+}
+
+/// scaled window value of one Knuth iteration: limbs p..k of x (p = k - yc) with the extra top limb h
+spec fn kn_wsc(xb: Seq<Limb>, h: int, k: nat, yc: nat) -> int { tv(xb, (k - yc) as nat, k) + h * bp(k) }
+/// the true quotient digit of the iteration
+spec fn kn_qt(xb: Seq<Limb>, h: int, k: nat, yc: nat, yv: int) -> int { kn_wsc(xb, h, k, yc) / (yv * bp((k - yc) as nat)) }
+
+/// the top dividend limb does not exceed the top divisor limb (precondition of div3by2)
+proof fn lemma_knuth_top(xb: Seq<Limb>, ys: Seq<Limb>, h: int, k: nat, yc: nat, yv: int)
+    requires 2 <= yc <= k, yv == val(ys, yc), h >= 0,
+        h * bp(k) + val(xb, k) < yv * bp((k - yc + 1) as nat),
+    ensures h <= ys[yc - 1].0 as int
+{
+    let p = (k - yc) as nat; let pp = bp(p);
+    lemma_bp_succ(p); lemma_bp_succ((yc - 1) as nat); lemma_bp_succ(k);
+    lemma_bp_add(p, yc);
+    lemma_val_bound(xb, k); lemma_val_bound(ys, (yc - 1) as nat);
+    let top = ys[yc - 1].0 as int;
+    let pt = bp((yc - 1) as nat);
+    assert(yv == val(ys, (yc - 1) as nat) + top * pt);
+    assert(yv < (top + 1) * pt) by (nonlinear_arith)
+        requires yv == val(ys, (yc - 1) as nat) + top * pt, val(ys, (yc - 1) as nat) <= pt - 1;
+    assert(B() * pp > 0) by (nonlinear_arith) requires pp > 0;
+    assert(yv * (B() * pp) < (top + 1) * pt * (B() * pp)) by (nonlinear_arith)
+        requires yv < (top + 1) * pt, B() * pp > 0;
+    assert((top + 1) * pt * (B() * pp) == (top + 1) * bp(k)) by (nonlinear_arith)
+        requires bp(k) == pp * bp(yc), bp(yc) == B() * pt;
+    assert((k - yc + 1) as nat == p + 1);
+    assert(yv * bp((k - yc + 1) as nat) == yv * (B() * pp));
+    assert(h < top + 1) by (nonlinear_arith) requires h * bp(k) < (top + 1) * bp(k), bp(k) > 0;
+}
+
+/// the 3-by-2 estimate is the true digit qt or qt + 1
+proof fn lemma_knuth_quo(xb: Seq<Limb>, ys: Seq<Limb>, h: int, k: nat, yc: nat, yv: int, quo: int)
+    requires 2 <= yc <= k, yv == val(ys, yc), 2 * yv >= bp(yc), yv < bp(yc), 0 <= h,
+        h * bp(k) + val(xb, k) < yv * bp((k - yc + 1) as nat),
+        ys[yc - 1].0 as int >= B() / 2,
+        quo == min_int(B() - 1, ((h * B() + xb[k - 1].0 as int) * B() + xb[k - 2].0 as int) / (ys[yc - 1].0 as int * B() + ys[yc - 2].0 as int)),
+    ensures
+        kn_qt(xb, h, k, yc, yv) <= quo <= kn_qt(xb, h, k, yc, yv) + 1,
+        0 <= kn_qt(xb, h, k, yc, yv) <= B() - 1,
+        kn_qt(xb, h, k, yc, yv) * yv * bp((k - yc) as nat) <= kn_wsc(xb, h, k, yc) < (kn_qt(xb, h, k, yc, yv) + 1) * yv * bp((k - yc) as nat),
+        kn_wsc(xb, h, k, yc) >= 0, yv * bp((k - yc) as nat) > 0,
+{
+    let p = (k - yc) as nat; let pp = bp(p);
+    let xi = (k - 1) as nat;
+    let wsc = kn_wsc(xb, h, k, yc);
+    let qt = kn_qt(xb, h, k, yc, yv);
+    let e = bp((yc - 2) as nat);
+    lemma_bp_succ(p); lemma_bp_succ(0); lemma_bp_succ(k); lemma_bp_succ((yc - 1) as nat); lemma_bp_succ((yc - 2) as nat);
+    lemma_bp_add(p, yc); lemma_bp_add(p, (yc - 1) as nat); lemma_bp_add(p, (yc - 2) as nat);
+    lemma_tv_bound(xb, 0, k); lemma_tv_bound(xb, 0, p); lemma_tv_bound(xb, p, k); assert(val(xb, 0) == 0);
+    lemma_tv_bound(ys, 0, (yc - 1) as nat); lemma_tv_bound(ys, 0, (yc - 2) as nat); assert(val(ys, 0) == 0);
+    assert((k - yc + 1) as nat == p + 1);
+    let top = ys[yc - 1].0 as int; let y2 = ys[yc - 2].0 as int;
+    let x1 = xb[xi as int].0 as int; let x0 = xb[xi - 1].0 as int;
+    let u3 = (h * B() + x1) * B() + x0;
+    let v2 = top * B() + y2;
+    let wl_sc = tv(xb, p, (xi - 1) as nat);
+    lemma_tv_bound(xb, p, (xi - 1) as nat);
+    lemma_bp_succ((xi - 1) as nat); lemma_bp_succ(xi);
+    assert((p + (yc - 2)) as nat == (xi - 1) as nat);
+    assert(bp((xi - 1) as nat) == pp * e);
+    assert(val(xb, k) == val(xb, xi) + x1 * bp(xi));
+    assert(val(xb, xi) == val(xb, (xi - 1) as nat) + x0 * bp((xi - 1) as nat));
+    assert(wsc == wl_sc + u3 * (pp * e)) by (nonlinear_arith)
+        requires wsc == wl_sc + x0 * bp((xi - 1) as nat) + x1 * bp(xi) + h * bp(k),
+            bp(xi) == B() * bp((xi - 1) as nat), bp(k) == B() * bp(xi), bp((xi - 1) as nat) == pp * e,
+            u3 == (h * B() + x1) * B() + x0;
+    let yl = val(ys, (yc - 2) as nat);
+    assert(val(ys, yc) == val(ys, (yc - 1) as nat) + top * bp((yc - 1) as nat));
+    assert(val(ys, (yc - 1) as nat) == yl + y2 * e);
+    assert(yv == v2 * e + yl) by (nonlinear_arith)
+        requires yv == yl + y2 * e + top * bp((yc - 1) as nat), bp((yc - 1) as nat) == B() * e, v2 == top * B() + y2;
+    assert(yv * pp == v2 * (pp * e) + yl * pp) by (nonlinear_arith) requires yv == v2 * e + yl;
+    assert(0 <= yl * pp < pp * e) by (nonlinear_arith) requires 0 <= yl < e, pp > 0;
+    assert(wl_sc < pp * e);
+    assert(wsc <= h * bp(k) + val(xb, k));
+    assert(wsc < (yv * pp) * B()) by (nonlinear_arith)
+        requires wsc <= h * bp(k) + val(xb, k), h * bp(k) + val(xb, k) < yv * (B() * pp);
+    assert(2 * (yv * pp) >= B() * B() * (pp * e)) by (nonlinear_arith)
+        requires 2 * yv >= bp(yc), bp(yc) == B() * bp((yc - 1) as nat), bp((yc - 1) as nat) == B() * e, pp > 0;
+    assert(pp * e >= 1) by (nonlinear_arith) requires pp >= 1, e >= 1;
+    assert(u3 >= 0) by (nonlinear_arith) requires u3 == (h * B() + x1) * B() + x0, h >= 0, x1 >= 0, x0 >= 0;
+    assert(v2 > 0) by (nonlinear_arith) requires v2 == top * B() + y2, top >= B() / 2, y2 >= 0;
+    assert(wsc >= 0) by (nonlinear_arith) requires wsc == wl_sc + u3 * (pp * e), wl_sc >= 0, u3 >= 0, pp * e >= 1;
+    lemma_knuth_digit(wsc, yv * pp, u3, v2, wl_sc, yl * pp, pp * e, quo);
+    assert(yv * pp > 0) by (nonlinear_arith) requires 2 * yv >= bp(yc), bp(yc) > 0, pp > 0;
+    lemma_fundamental_div_mod(wsc, yv * pp);
+    lemma_mod_bound(wsc, yv * pp);
+    assert(qt * yv * pp <= wsc < (qt + 1) * yv * pp) by (nonlinear_arith)
+        requires wsc == (yv * pp) * qt + wsc % (yv * pp), 0 <= wsc % (yv * pp) < yv * pp;
+}
+
+/// one limb of the multiply-and-subtract loop
+proof fn lemma_knuth_sub_step(xb: Seq<Limb>, xo: Seq<Limb>, xn: Seq<Limb>, ys: Seq<Limb>, p: nat, i: nat, q: int,
+        c0: int, c1: int, b0: int, b1: int, tm: int)
+    requires
+        forall|j: int| 0 <= j < p + i ==> xn[j] == xo[j],
+        xo[(p + i) as int] == xb[(p + i) as int],
+        tv(xo, p, p + i) == tv(xb, p, p + i) - q * val(ys, i) * bp(p) + c0 * bp(p + i) + b0 * bp(p + i),
+        tm + c1 * B() == ys[i as int].0 as int * q + c0,
+        xn[(p + i) as int].0 as int - b1 * B() == xb[(p + i) as int].0 as int - tm - b0,
+    ensures
+        tv(xn, p, p + i + 1) == tv(xb, p, p + i + 1) - q * val(ys, i + 1) * bp(p) + c1 * bp(p + i + 1) + b1 * bp(p + i + 1),
+{
+    let kk = p + i; let pp = bp(p);
+    lemma_val_ext(xo, xn, kk);
+    lemma_val_ext(xo, xn, p);
+    lemma_bp_succ(kk);
+    lemma_bp_add(p, i);
+    let pk = bp(kk);
+    let xov = xb[kk as int].0 as int; let xnv = xn[kk as int].0 as int;
+    let yi = ys[i as int].0 as int;
+    assert(val(xn, kk + 1) == val(xn, kk) + xnv * pk);
+    assert(val(xb, kk + 1) == val(xb, kk) + xov * pk);
+    assert(val(ys, i + 1) == val(ys, i) + yi * bp(i));
+    assert(xnv * pk == xov * pk - (yi * q) * pk + c1 * (B() * pk) - c0 * pk + b1 * (B() * pk) - b0 * pk) by (nonlinear_arith)
+        requires tm + c1 * B() == yi * q + c0, xnv - b1 * B() == xov - tm - b0;
+    assert((yi * q) * pk == q * (yi * bp(i)) * pp) by (nonlinear_arith) requires pk == pp * bp(i);
+    assert(q * (val(ys, i) + yi * bp(i)) * pp == q * val(ys, i) * pp + q * (yi * bp(i)) * pp) by (nonlinear_arith);
+}
+
+/// after the top limb: the borrow tells whether the estimate was one too large
+proof fn lemma_knuth_sub_final(xb: Seq<Limb>, xs: Seq<Limb>, h: int, k: nat, yc: nat, yv: int, q: int, c: int, b0: int, b1: int)
+    requires 2 <= yc <= k, 0 < yv <= bp(yc),
+        kn_qt(xb, h, k, yc, yv) <= q <= kn_qt(xb, h, k, yc, yv) + 1,
+        kn_qt(xb, h, k, yc, yv) * yv * bp((k - yc) as nat) <= kn_wsc(xb, h, k, yc) < (kn_qt(xb, h, k, yc, yv) + 1) * yv * bp((k - yc) as nat),
+        tv(xs, (k - yc) as nat, k) == tv(xb, (k - yc) as nat, k) - q * yv * bp((k - yc) as nat) + c * bp(k) + b0 * bp(k),
+        b0 == 0 || b0 == 1, b1 == 0 || b1 == 1, 0 <= c < B(), 0 <= h < B(),
+        (b1 == 1) <==> (h - c - b0 < 0),
+    ensures
+        (b1 == 1) <==> (q == kn_qt(xb, h, k, yc, yv) + 1),
+        tv(xs, (k - yc) as nat, k) == (if b1 == 1 { bp(k) + (kn_wsc(xb, h, k, yc) - kn_qt(xb, h, k, yc, yv) * yv * bp((k - yc) as nat)) - yv * bp((k - yc) as nat) }
+                                       else { kn_wsc(xb, h, k, yc) - kn_qt(xb, h, k, yc, yv) * yv * bp((k - yc) as nat) }),
+{
+    let p = (k - yc) as nat; let pp = bp(p);
+    let wsc = kn_wsc(xb, h, k, yc); let qt = kn_qt(xb, h, k, yc, yv);
+    let tt = h - c - b0 + b1 * B();
+    assert(0 <= tt <= B() - 1);
+    lemma_bp_add(p, yc);
+    lemma_bp_succ(k); lemma_bp_succ(p);
+    let pt = bp(k);
+    assert(tt * pt - b1 * (B() * pt) == h * pt - c * pt - b0 * pt) by (nonlinear_arith)
+        requires tt - b1 * B() == h - c - b0;
+    let l = tv(xs, p, k);
+    assert(l + tt * pt == wsc - q * yv * pp + b1 * (B() * pt));
+    lemma_tv_bound(xs, p, k);
+    assert(0 <= tt * pt <= (B() - 1) * pt) by (nonlinear_arith) requires 0 <= tt <= B() - 1, pt > 0;
+    assert((B() - 1) * pt == B() * pt - pt) by (nonlinear_arith);
+    assert(yv * pp <= bp(yc) * pp) by (nonlinear_arith) requires yv <= bp(yc), pp > 0;
+    assert(bp(yc) * pp == pt) by (nonlinear_arith) requires pt == pp * bp(yc);
+    assert(q * yv * pp == qt * yv * pp + (q - qt) * (yv * pp)) by (nonlinear_arith);
+    assert((qt + 1) * yv * pp == qt * yv * pp + yv * pp) by (nonlinear_arith);
+    let tpt = tt * pt; let bpt = B() * pt;
+    let rprime = wsc - qt * yv * pp;
+    assert(0 <= rprime < yv * pp);
+    assert(tt >= 1 ==> tpt >= pt) by (nonlinear_arith) requires tpt == tt * pt, pt > 0;
+    assert(tt <= B() - 2 ==> tpt <= bpt - 2 * pt) by (nonlinear_arith) requires tpt == tt * pt, bpt == B() * pt, pt > 0;
+    assert(tpt >= 0) by (nonlinear_arith) requires tpt == tt * pt, tt >= 0, pt > 0;
+    assert(b1 == 0 ==> b1 * bpt == 0) by (nonlinear_arith);
+    assert(b1 == 1 ==> b1 * bpt == bpt) by (nonlinear_arith);
+    if q == qt {
+        assert((q - qt) * (yv * pp) == 0) by (nonlinear_arith) requires q - qt == 0;
+        assert(l + tpt == rprime + b1 * bpt);
+        assert(b1 == 0);
+        assert(tt == 0);
+        assert(tpt == 0) by (nonlinear_arith) requires tpt == tt * pt, tt == 0;
+        assert(l == rprime);
+    } else {
+        assert(q == qt + 1);
+        assert((q - qt) * (yv * pp) == yv * pp) by (nonlinear_arith) requires q - qt == 1;
+        assert(l + tpt == rprime - yv * pp + b1 * bpt);
+        assert(b1 == 1);
+        assert(tt == B() - 1);
+        assert(tpt == bpt - pt) by (nonlinear_arith) requires tpt == tt * pt, bpt == B() * pt, tt == B() - 1;
+        assert(l == pt + rprime - yv * pp);
+    }
+}
+
+/// one limb of the conditional add-back loop
+proof fn lemma_knuth_add_step(xs: Seq<Limb>, xo: Seq<Limb>, xn: Seq<Limb>, ys: Seq<Limb>, p: nat, i: nat, m: int, sel: int,
+        c0: int, c1: int)
+    requires
+        forall|j: int| 0 <= j < p + i ==> xn[j] == xo[j],
+        xo[(p + i) as int] == xs[(p + i) as int],
+        tv(xo, p, p + i) + c0 * bp(p + i) == tv(xs, p, p + i) + m * val(ys, i) * bp(p),
+        (m == 1 && sel == ys[i as int].0 as int) || (m == 0 && sel == 0),
+        xn[(p + i) as int].0 as int + c1 * B() == xs[(p + i) as int].0 as int + sel + c0,
+    ensures
+        tv(xn, p, p + i + 1) + c1 * bp(p + i + 1) == tv(xs, p, p + i + 1) + m * val(ys, i + 1) * bp(p),
+{
+    let kk = p + i; let pp = bp(p);
+    lemma_val_ext(xo, xn, kk);
+    lemma_val_ext(xo, xn, p);
+    lemma_bp_succ(kk);
+    lemma_bp_add(p, i);
+    let pk = bp(kk);
+    let xov = xs[kk as int].0 as int; let xnv = xn[kk as int].0 as int; let yi = ys[i as int].0 as int;
+    assert(val(xn, kk + 1) == val(xn, kk) + xnv * pk);
+    assert(val(xs, kk + 1) == val(xs, kk) + xov * pk);
+    assert(val(ys, i + 1) == val(ys, i) + yi * bp(i));
+    assert(m * yi == sel) by (nonlinear_arith) requires (m == 1 && sel == yi) || (m == 0 && sel == 0);
+    assert(xnv * pk + c1 * (B() * pk) == xov * pk + m * yi * pk + c0 * pk) by (nonlinear_arith)
+        requires xnv + c1 * B() == xov + m * yi + c0;
+    assert(m * yi * pk == m * (yi * bp(i)) * pp) by (nonlinear_arith) requires pk == pp * bp(i);
+    assert(m * (val(ys, i) + yi * bp(i)) * pp == m * val(ys, i) * pp + m * (yi * bp(i)) * pp) by (nonlinear_arith);
+}
+
+/// after the add-back loop the window holds the true partial remainder
+proof fn lemma_knuth_add_final(xs: Seq<Limb>, xa: Seq<Limb>, k: nat, yc: nat, yv: int, m: int, c: int, rp: int)
+    requires 2 <= yc <= k, 0 < yv <= bp(yc), m == 0 || m == 1, c >= 0,
+        tv(xa, (k - yc) as nat, k) + c * bp(k) == tv(xs, (k - yc) as nat, k) + m * yv * bp((k - yc) as nat),
+        tv(xs, (k - yc) as nat, k) == (if m == 1 { bp(k) + rp - yv * bp((k - yc) as nat) } else { rp }),
+        0 <= rp < yv * bp((k - yc) as nat),
+    ensures tv(xa, (k - yc) as nat, k) == rp
+{
+    let p = (k - yc) as nat; let pp = bp(p);
+    lemma_bp_add(p, yc); lemma_bp_succ(p); lemma_bp_succ(k);
+    lemma_tv_bound(xa, p, k);
+    let pt = bp(k);
+    let cpt = c * pt;
+    assert(yv * pp <= bp(yc) * pp) by (nonlinear_arith) requires yv <= bp(yc), pp > 0;
+    assert(bp(yc) * pp == pt) by (nonlinear_arith) requires pt == pp * bp(yc);
+    assert(c == 0 ==> cpt == 0) by (nonlinear_arith) requires cpt == c * pt;
+    assert(c == 1 ==> cpt == pt) by (nonlinear_arith) requires cpt == c * pt;
+    assert(c >= 2 ==> cpt >= 2 * pt) by (nonlinear_arith) requires cpt == c * pt, pt > 0;
+    if m == 1 {
+        assert(m * yv * pp == yv * pp) by (nonlinear_arith) requires m == 1;
+    } else {
+        assert(m * yv * pp == 0) by (nonlinear_arith) requires m == 0;
+    }
+}
+
+/// the partial remainder below the window plus the reduced window stays below yv * B^p
+proof fn lemma_knuth_rem_bound(xb: Seq<Limb>, h: int, k: nat, yc: nat, yv: int, qt: int)
+    requires 2 <= yc <= k,
+        kn_wsc(xb, h, k, yc) - qt * yv * bp((k - yc) as nat) < yv * bp((k - yc) as nat),
+    ensures val(xb, (k - yc) as nat) + (kn_wsc(xb, h, k, yc) - qt * yv * bp((k - yc) as nat)) < yv * bp((k - yc) as nat)
+{
+    let p = (k - yc) as nat; let pp = bp(p);
+    let wsc = kn_wsc(xb, h, k, yc);
+    let rp = wsc - qt * yv * pp;
+    lemma_bp_add(p, yc); lemma_bp_succ(p);
+    lemma_val_bound(xb, p);
+    lemma_tv_factor(xb, p, k);
+    let w = tvq(xb, p, k);
+    let byc = bp(yc);
+    let z = w + h * byc - qt * yv;
+    assert(h * (pp * byc) == pp * (h * byc)) by (nonlinear_arith);
+    assert(qt * yv * pp == pp * (qt * yv)) by (nonlinear_arith);
+    assert(pp * (w + h * byc - qt * yv) == pp * w + pp * (h * byc) - pp * (qt * yv)) by (nonlinear_arith);
+    assert(rp == pp * z);
+    assert(z < yv) by (nonlinear_arith) requires pp * z < yv * pp, pp > 0;
+    assert(pp * z <= pp * (yv - 1)) by (nonlinear_arith) requires z <= yv - 1, pp > 0;
+    assert(pp * (yv - 1) == yv * pp - pp) by (nonlinear_arith);
+}
+
+/// end of one iteration of div_rem_vartime: the outer invariant moves from k to k - 1
+proof fn lemma_knuth_iter_vt(xb: Seq<Limb>, xa: Seq<Limb>, xn: Seq<Limb>, h: int, k: nat, yc: nat, n: nat, yv: int, qt: int, qacc: int, xv: int)
+    requires 2 <= yc <= k <= n, yv > 0,
+        0 <= kn_wsc(xb, h, k, yc) - qt * yv * bp((k - yc) as nat) < yv * bp((k - yc) as nat),
+        tv(xa, (k - yc) as nat, k) == kn_wsc(xb, h, k, yc) - qt * yv * bp((k - yc) as nat),
+        forall|j: int| 0 <= j < n && !(k - yc <= j < k) ==> xa[j] == xb[j],
+        forall|j: int| 0 <= j < n && j != k - 1 ==> xn[j] == xa[j],
+        xn[k - 1].0 as int == qt,
+        xv == qacc * yv + h * bp(k) + val(xb, k),
+        tv(xb, k, n) == qacc * bp((yc - 1) as nat),
+    ensures
+        xv == (qacc + qt * bp((k - yc) as nat)) * yv + xa[k - 1].0 as int * bp((k - 1) as nat) + val(xn, (k - 1) as nat),
+        xa[k - 1].0 as int * bp((k - 1) as nat) + val(xn, (k - 1) as nat) < yv * bp((k - yc) as nat),
+        tv(xn, (k - 1) as nat, n) == (qacc + qt * bp((k - yc) as nat)) * bp((yc - 1) as nat),
+{
+    let p = (k - yc) as nat; let pp = bp(p); let xi = (k - 1) as nat;
+    let wsc = kn_wsc(xb, h, k, yc);
+    let rp = wsc - qt * yv * pp;
+    let hn = xa[xi as int].0 as int;
+    lemma_val_ext(xa, xn, xi);
+    lemma_val_ext(xb, xa, p);
+    lemma_tv_ext(xn, xa, k, n);
+    lemma_tv_ext(xa, xb, k, n);
+    lemma_bp_succ(xi);
+    lemma_bp_add(p, (yc - 1) as nat);
+    assert((p + (yc - 1)) as nat == xi);
+    assert(val(xa, k) == val(xa, xi) + hn * bp(xi));
+    assert(hn * bp(xi) + val(xn, xi) == val(xb, p) + rp);
+    assert(h * bp(k) + val(xb, k) == val(xb, p) + wsc);
+    assert(val(xn, k) == val(xn, xi) + qt * bp(xi));
+    assert(tv(xn, xi, n) == tv(xn, k, n) + qt * bp(xi));
+    assert(qt * bp(xi) == (qt * pp) * bp((yc - 1) as nat)) by (nonlinear_arith) requires bp(xi) == pp * bp((yc - 1) as nat);
+    assert((qacc + qt * pp) * bp((yc - 1) as nat) == qacc * bp((yc - 1) as nat) + (qt * pp) * bp((yc - 1) as nat)) by (nonlinear_arith);
+    assert((qacc + qt * pp) * yv == qacc * yv + qt * yv * pp) by (nonlinear_arith);
+    lemma_knuth_rem_bound(xb, h, k, yc, yv, qt);
+}
+// ---------------------------------------------------------------- lemmas copied from l3_divlimb.rs (private there)
+/// u1 < d, u0 < b  ==>  u1*b + u0 < d*b   (symbolic b)
+proof fn lemma_d21_uu_bound(b: int, u1: int, u0: int, d: int)
+    requires u1 <= d - 1, u0 < b, b > 0
+    ensures u1 * b + u0 < d * b
+{
+    assert(u1 * b <= (d - 1) * b) by (nonlinear_arith) requires u1 <= d - 1, b > 0;
+    assert((d - 1) * b == d * b - b) by (nonlinear_arith);
+}
+
+/// the limb shifted out by shl_limb is below the normalised divisor
+proof fn lemma_divlimb_init(usv: int, hi: int, uv: int, ps: int, dv: int, n: nat)
+    requires usv + hi * bp(n) == uv * ps, 0 <= usv, 0 <= uv < bp(n), ps > 0, dv >= 1, hi >= 0
+    ensures hi < ps, hi < dv * ps
+{
+    let p = bp(n);
+    assert(uv * ps < p * ps) by (nonlinear_arith) requires uv < p, ps > 0;
+    assert(hi < ps) by (nonlinear_arith) requires hi * p < p * ps, p > 0;
+    assert(dv * ps >= ps) by (nonlinear_arith) requires dv >= 1, ps > 0;
+}
+
+/// one step of the schoolbook loop: bring down limb j, append quotient limb qj
+proof fn lemma_divlimb_step(qo: Seq<Limb>, qn: Seq<Limb>, us: Seq<Limb>, j: nat, n: nat, dn: int, r: int, qj: int, rj: int, total: int)
+    requires
+        j < n,
+        forall|k: int| j < k < n ==> qn[k] == qo[k],
+        qn[j as int].0 as int == qj,
+        qj * dn + rj == r * B() + us[j as int].0 as int,
+        tv(qo, j + 1, n) * dn + r * bp(j + 1) + val(us, j + 1) == total,
+    ensures
+        tv(qn, j, n) * dn + rj * bp(j) + val(us, j) == total,
+{
+    lemma_tv_ext(qo, qn, j + 1, n);
+    lemma_val_step(qn, j);
+    lemma_val_step(us, j);
+    lemma_bp_succ(j);
+    let t = tv(qo, j + 1, n); let p = bp(j); let x = us[j as int].0 as int; let b = B();
+    assert(tv(qn, j, n) == t + qj * p);
+    assert((t + qj * p) * dn + rj * p == t * dn + r * (b * p) + x * p) by (nonlinear_arith)
+        requires qj * dn + rj == r * b + x;
+}
+
+/// the (discarded) quotient word of div2by1 is a u64 value determined by the inputs
+proof fn lemma_divlimb_quot(r: int, x: int, dn: int, rj: int)
+    requires dn > 0, 0 <= r < dn, 0 <= x < B(), rj == (r * B() + x) % dn
+    ensures ({ let q = (r * B() + x) / dn; 0 <= q < B() && q * dn + rj == r * B() + x })
+{
+    let b = B(); let y = r * b + x; let q = y / dn;
+    lemma_fundamental_div_mod(y, dn);
+    lemma_mod_bound(y, dn);
+    assert(dn * q == q * dn) by (nonlinear_arith);
+    lemma_d21_uu_bound(b, r, x, dn);
+    assert(y >= 0) by (nonlinear_arith) requires y == r * b + x, r >= 0, x >= 0, b > 0;
+    assert(q < b) by (nonlinear_arith) requires q * dn + rj == y, y < dn * b, rj >= 0, dn > 0;
+    assert(q >= 0) by (nonlinear_arith) requires q * dn + rj == y, y >= 0, rj < dn, dn > 0;
+}
+
+/// undo the normalisation: Q*(dv*2^s) + r == U*2^s  ==>  Q*dv + r/2^s == U
+proof fn lemma_divlimb_final(qv: int, r: int, uv: int, dv: int, ps: int)
+    requires ps > 0, qv * (dv * ps) + r == uv * ps, 0 <= r < dv * ps
+    ensures qv * dv + r / ps == uv, 0 <= r / ps < dv
+{
+    let x = uv - qv * dv;
+    assert(x * ps == r) by (nonlinear_arith) requires x == uv - qv * dv, qv * (dv * ps) + r == uv * ps;
+    lemma_div_multiples_vanish(x, ps);
+    assert(ps * x == x * ps) by (nonlinear_arith);
+    assert(x < dv) by (nonlinear_arith) requires x * ps < dv * ps, ps > 0;
+    assert(x >= 0) by (nonlinear_arith) requires x * ps >= 0, ps > 0;
+}
+
+proof fn lemma_tv_empty_mul(q: Seq<Limb>, n: nat, dn: int)
+    ensures tv(q, n, n) * dn == 0
+{
+    let t = tv(q, n, n);
+    assert(t * dn == 0) by (nonlinear_arith) requires t == 0;
+}
+
+// ---------------------------------------------------------------- lemmas of this unit
+
+/// a limb sequence whose top limb is non-zero has a value of at least B^(n-1)
+proof fn lemma_bd_pos(ys: Seq<Limb>, n: nat)
+    requires n >= 1, ys[n - 1].0 != 0
+    ensures val(ys, n) >= bp((n - 1) as nat), bp((n - 1) as nat) > 0
+{
+    lemma_val_bound(ys, (n - 1) as nat); lemma_bp_succ((n - 1) as nat);
+    let top = ys[n - 1].0 as int; let pt = bp((n - 1) as nat);
+    assert(top * pt >= pt) by (nonlinear_arith) requires top >= 1, pt > 0;
+}
+
+/// n < B^xc <= B^(yc-1) <= d for a divisor with more limbs than the dividend
+proof fn lemma_bd_short(xs: Seq<Limb>, ys: Seq<Limb>, xc: nat, yc: nat)
+    requires xc < yc, ys[yc - 1].0 != 0
+    ensures 0 <= val(xs, xc) < val(ys, yc)
+{
+    lemma_val_bound(xs, xc); lemma_bd_pos(ys, yc);
+    lemma_pow_increases(B() as nat, xc, (yc - 1) as nat);
+}
+
+/// normalisation by the leading-zero count l of the top divisor limb
+proof fn lemma_bd_norm(ys: Seq<Limb>, yc: nat, xc: nat, sv: int, l: nat)
+    requires 1 <= yc <= xc, l < 64, (ys[yc - 1].0 as int) < p2((64 - l) as nat), ys[yc - 1].0 as int >= p2((63 - l) as nat),
+        0 <= sv < bp(xc),
+    ensures
+        ({ let s2 = p2(l); let yv = val(ys, yc) * s2; let xv = sv * s2;
+           &&& s2 > 0 &&& 2 * yv >= bp(yc) &&& yv < bp(yc) &&& yv > 0 &&& val(ys, yc) > 0
+           &&& 0 <= xv &&& xv < yv * bp((xc - yc + 1) as nat) })
+{
+    let s2 = p2(l); let rv = val(ys, yc); let yv = rv * s2; let xv = sv * s2;
+    let top = ys[yc - 1].0 as int; let pt = bp((yc - 1) as nat); let lo = val(ys, (yc - 1) as nat);
+    let ph = p2((64 - l) as nat); let pl = p2((63 - l) as nat);
+    lemma_pow2_pos(l); lemma_pow2_64();
+    lemma_val_bound(ys, (yc - 1) as nat); lemma_bp_succ((yc - 1) as nat);
+    assert(rv == lo + top * pt);
+    lemma_pow2_adds((64 - l) as nat, l);
+    lemma_pow2_adds((63 - l) as nat, l);
+    assert(((64 - l) as nat) + l == 64 && ((63 - l) as nat) + l == 63);
+    assert(ph * s2 == B());
+    assert(pl * s2 == 0x8000_0000_0000_0000);
+    // upper bound
+    assert((top + 1) * pt <= ph * pt) by (nonlinear_arith) requires top + 1 <= ph, pt > 0;
+    assert((top + 1) * pt == top * pt + pt) by (nonlinear_arith);
+    assert(rv < ph * pt);
+    assert(rv * s2 < (ph * pt) * s2) by (nonlinear_arith) requires rv < ph * pt, s2 > 0;
+    assert((ph * pt) * s2 == (ph * s2) * pt) by (nonlinear_arith);
+    assert(yv < bp(yc));
+    // lower bound
+    assert(top * pt >= pl * pt) by (nonlinear_arith) requires top >= pl, pt > 0;
+    assert(rv * s2 >= (pl * pt) * s2) by (nonlinear_arith) requires rv >= pl * pt, s2 > 0;
+    assert((pl * pt) * s2 == (pl * s2) * pt) by (nonlinear_arith);
+    assert(2 * yv >= bp(yc));
+    assert(rv > 0) by (nonlinear_arith) requires rv * s2 > 0, s2 > 0;
+    // dividend
+    if l < 63 { lemma_pow2_strictly_increases(l, 63); }
+    assert(s2 <= 0x8000_0000_0000_0000);
+    lemma_bp_add(yc, (xc - yc + 1) as nat);
+    assert((yc + (xc - yc + 1)) as nat == xc + 1);
+    lemma_bp_succ(xc); lemma_bp_succ((xc - yc + 1) as nat);
+    assert(xv >= 0) by (nonlinear_arith) requires xv == sv * s2, sv >= 0, s2 > 0;
+    assert(xv < s2 * bp(xc)) by (nonlinear_arith) requires xv == sv * s2, sv < bp(xc), s2 > 0;
+    assert(s2 * bp(xc) <= 0x8000_0000_0000_0000 * bp(xc)) by (nonlinear_arith) requires s2 <= 0x8000_0000_0000_0000, bp(xc) > 0;
+    assert(2 * (yv * bp((xc - yc + 1) as nat)) >= bp(yc) * bp((xc - yc + 1) as nat)) by (nonlinear_arith)
+        requires 2 * yv >= bp(yc), bp((xc - yc + 1) as nat) > 0;
+}
+
+/// v + c * p == t with t < p: no carry
+proof fn lemma_bd_no_carry(v: int, c: int, p: int, t: int)
+    requires v + c * p == t, 0 <= v, 0 <= c, t < p, p > 0
+    ensures c == 0, v == t
+{
+    assert(c >= 1 ==> c * p >= p) by (nonlinear_arith) requires p > 0;
+    assert(c == 0 ==> c * p == 0);
+}
 
 //@@ fn src/limb/bit_or.rs | impl BitOr for Limb | bitor | body | props C05 C11
 impl BitOr for Limb {
+//@+
+    type Output = Limb;
+//@-
 fn bitor(self, rhs: Self) -> (ret__: Self::Output)
+//@+
+    ensures ret__.0 == self.0 | rhs.0
+//@-
 {
         self.bitor(rhs)
     }
@@ -24,8 +755,28 @@ fn bitor(self, rhs: Self) -> (ret__: Self::Output)
 //@@ end
 //@@ fn src/uint/boxed/div.rs | - | shl_limb_vartime | body | props C02 C11
 pub fn shl_limb_vartime(limbs: &mut [Limb], shift: u32) -> (ret__: Limb)
+//@+
+    requires shift < 64, shift > 0 ==> old(limbs).len() >= 1
+    ensures final(limbs).len() == old(limbs).len(),
+        val(final(limbs)@, old(limbs).len() as nat) + ret__.0 as int * bp(old(limbs).len() as nat)
+            == val(old(limbs)@, old(limbs).len() as nat) * p2(shift as nat),
+        val(old(limbs)@, old(limbs).len() as nat) * p2(shift as nat) < bp(old(limbs).len() as nat) ==> ret__.0 == 0
+            && val(final(limbs)@, old(limbs).len() as nat) == val(old(limbs)@, old(limbs).len() as nat) * p2(shift as nat),
+        shift == 0 ==> final(limbs)@ == old(limbs)@ && ret__.0 == 0,
+        (ret__.0 as int) < p2(shift as nat),
+//@-
 {
+//@+
+    let ghost l0 = limbs@; let ghost n = limbs.len() as nat;
+    proof { lemma_pow2_64(); lemma_val_bound(l0, n); }
+//@-
     if shift == 0 {
+//@+
+        proof {
+            assert(val(l0, n) * 1 == val(l0, n)) by (nonlinear_arith);
+            assert(0 * bp(n) == 0) by (nonlinear_arith);
+        }
+//@-
         return Limb::ZERO;
     }
     let lshift = shift;
@@ -33,34 +784,102 @@ pub fn shl_limb_vartime(limbs: &mut [Limb], shift: u32) -> (ret__: Limb)
     let limbs_num = limbs.len();
     let carry = limbs[limbs_num - 1] >> rshift;
     for i in (1..limbs_num).rev()
+//@+
+        invariant limbs.len() == n, l0.len() == n, limbs_num == n, n >= 1, 0 < shift < 64, lshift == shift, rshift == 64 - shift,
+            forall|j: int| limbs_num - VERUS_ghost_iter.index@ <= j < limbs_num ==> limbs@[j].0 == (l0[j].0 << shift) | (l0[j - 1].0 >> rshift),
+            forall|j: int| 0 <= j < limbs_num - VERUS_ghost_iter.index@ ==> limbs@[j] == l0[j],
+//@-
 {
         limbs[i] = (limbs[i] << lshift) | (limbs[i - 1] >> rshift);
     }
     limbs[0] <<= lshift;
+//@+
+    proof {
+        lemma_shl_limbs(l0, limbs@, n, shift);
+        lemma_val_bound(limbs@, n); lemma_bp_succ(n); lemma_pow2_pos(shift as nat);
+        lemma_divlimb_init(val(limbs@, n), carry.0 as int, val(l0, n), p2(shift as nat), 1, n);
+        if val(l0, n) * p2(shift as nat) < bp(n) { lemma_bd_no_carry(val(limbs@, n), carry.0 as int, bp(n), val(l0, n) * p2(shift as nat)); }
+    }
+//@-
     carry
 }
 //@@ end
 //@@ fn src/uint/boxed/div.rs | - | shr_limb_vartime | body | props C02 C11
 pub fn shr_limb_vartime(limbs: &mut [Limb], shift: u32)
+//@+
+    requires shift < 64, shift > 0 ==> old(limbs).len() >= 1
+    ensures final(limbs).len() == old(limbs).len(),
+        val(final(limbs)@, old(limbs).len() as nat) == val(old(limbs)@, old(limbs).len() as nat) / p2(shift as nat),
+        shift == 0 ==> final(limbs)@ == old(limbs)@,
+//@-
 {
+//@+
+    let ghost l0 = limbs@; let ghost n = limbs.len() as nat;
+    proof { lemma_pow2_64(); }
+//@-
     if shift == 0 {
+//@+
+        proof { assert(val(l0, n) / 1 == val(l0, n)) by (nonlinear_arith); }
+//@-
         return;
     }
     let lshift = Limb::BITS - shift;
     let rshift = shift;
     let limbs_num = limbs.len();
     for i in 0..limbs_num - 1
+//@+
+        invariant limbs.len() == n, l0.len() == n, limbs_num == n, n >= 1, 0 < shift < 64, rshift == shift, lshift == 64 - shift,
+            forall|j: int| 0 <= j < VERUS_ghost_iter.index@ ==> limbs@[j].0 == (l0[j].0 >> shift) | (l0[j + 1].0 << lshift),
+            forall|j: int| VERUS_ghost_iter.index@ <= j < n ==> limbs@[j] == l0[j],
+//@-
 {
         limbs[i] = (limbs[i] >> rshift) | (limbs[i + 1] << lshift);
     }
     limbs[limbs_num - 1] >>= rshift;
+//@+
+    proof {
+        let m = (n - 1) as nat;
+        let pr = p2(shift as nat);
+        let s0 = l0[0].0;
+        let h0 = (s0 >> shift) as int;
+        let hm = (l0[m as int].0 >> shift) as int;
+        lemma_shr_limbs(l0, limbs@, m, shift);
+        assert(val(limbs@, n) == val(limbs@, m) + hm * bp(m));
+        assert(pr * (val(limbs@, m) + hm * bp(m)) == pr * val(limbs@, m) + pr * hm * bp(m)) by (nonlinear_arith);
+        lemma_u64_shr_div(s0, shift);
+        lemma_pow2_pos(shift as nat);
+        lemma_fundamental_div_mod(s0 as int, pr);
+        lemma_mod_bound(s0 as int, pr);
+        let rem0 = s0 as int - pr * h0;
+        assert(val(l0, n) == val(limbs@, n) * pr + rem0) by (nonlinear_arith)
+            requires pr * val(limbs@, n) + rem0 == val(l0, n);
+        lemma_fundamental_div_mod_converse(val(l0, n), pr, val(limbs@, n), rem0);
+    }
+//@-
 }
 //@@ end
 //@@ fn src/uint/boxed/div.rs | - | div_rem_vartime_in_place | body | props C02 C11
 pub fn div_rem_vartime_in_place(x: &mut [Limb], y: &mut [Limb])
+//@+
+    requires old(y).len() >= 1, old(y)[old(y).len() - 1].0 != 0,
+        old(x).len() == 0 || old(y).len() >= 2,
+        old(x).len() + old(y).len() <= usize::MAX,   // holds for every pair of slices of 8-byte elements (len * 8 <= isize::MAX)
+    ensures final(x).len() == old(x).len(), final(y).len() == old(y).len(),
+        val(final(x)@, old(x).len() as nat) * val(old(y)@, old(y).len() as nat) + val(final(y)@, old(y).len() as nat) == val(old(x)@, old(x).len() as nat),
+        0 <= val(final(y)@, old(y).len() as nat) < val(old(y)@, old(y).len() as nat),
+        val(final(x)@, old(x).len() as nat) == val(old(x)@, old(x).len() as nat) / val(old(y)@, old(y).len() as nat),
+        val(final(y)@, old(y).len() as nat) == val(old(x)@, old(x).len() as nat) % val(old(y)@, old(y).len() as nat),
+        old(y).len() <= old(x).len() ==> forall|j: int| old(x).len() - old(y).len() + 1 <= j < old(x).len() ==> final(x)[j].0 == 0,
+//@-
 {
     let xc = x.len();
     let yc = y.len();
+//@+
+    let ghost xs0 = x@; let ghost ys0 = y@;
+    let ghost rv = val(ys0, yc as nat);
+    let ghost sv = val(xs0, xc as nat);
+    proof { lemma_bd_pos(ys0, yc as nat); lemma_val_bound(xs0, xc as nat); }
+//@-
     assert!(
         yc > 0 && y[yc - 1].0 != 0,
         "divisor must have a non-zero leading word"
@@ -68,6 +887,13 @@ pub fn div_rem_vartime_in_place(x: &mut [Limb], y: &mut [Limb])
     if xc == 0 {
         // If the quotient is empty, set the remainder to zero and return.
         y.fill(Limb::ZERO);
+//@+
+        proof {
+            lemma_val_zero(y@, yc as nat);
+            assert(0 * rv == 0);
+            lemma_fundamental_div_mod_converse(sv, rv, 0, 0);
+        }
+//@-
         return;
     } else if yc > xc {
         // Divisor is greater than dividend. Return zero and the dividend as the
@@ -75,68 +901,274 @@ pub fn div_rem_vartime_in_place(x: &mut [Limb], y: &mut [Limb])
         y[..xc].copy_from_slice(&x[..xc]);
         y[xc..].fill(Limb::ZERO);
         x.fill(Limb::ZERO);
+//@+
+        proof {
+            lemma_bd_short(xs0, ys0, xc as nat, yc as nat);
+            lemma_val_hi_zero(y@, xc as nat, yc as nat);
+            lemma_val_ext(y@, xs0, xc as nat);
+            lemma_val_zero(x@, xc as nat);
+            assert(0 * rv == 0);
+            lemma_fundamental_div_mod_converse(sv, rv, 0, sv);
+        }
+//@-
         return;
     }
     let lshift = y[yc - 1].leading_zeros();
+//@+
+    let ghost s2 = p2(lshift as nat);
+    let ghost yv = rv * s2;   // normalised divisor
+    let ghost xv = sv * s2;   // shifted dividend
+    proof { lemma_bd_norm(ys0, yc as nat, xc as nat, sv, lshift as nat); }
+//@-
     // Shift divisor such that it has no leading zeros
     // This means that div2by1 requires no extra shifts, and ensures that the high word >= b/2
     shl_limb_vartime(y, lshift);
     // Shift the dividend to match
     let mut x_hi = shl_limb_vartime(x, lshift);
+//@+
+    let ghost ys = y@;
+    proof {
+        assert(val(ys, yc as nat) == yv);
+        assert(val(x@, xc as nat) + x_hi.0 as int * bp(xc as nat) == xv);
+        lemma_knuth_top_norm(ys, yc as nat);
+    }
+//@-
     let reciprocal = Reciprocal::new(y[yc - 1].to_nz().expect("zero divisor"));
+//@+
+    let ghost mut k: nat = xc as nat;    // Rem = x_hi * B^k + val(x, k)
+    let ghost mut qacc: int = 0;
+    proof {
+        assert(0 * yv == 0);
+        assert(tv(x@, xc as nat, xc as nat) == 0);
+        assert(0 * bp((yc - 1) as nat) == 0);
+    }
+//@-
     for xi in (yc - 1..xc).rev()
+//@+
+    invariant
+        x.len() == xc, y.len() == yc, 2 <= yc <= xc, y@ == ys, xc + yc <= usize::MAX,
+        k == xc - VERUS_ghost_iter.index@, yc - 1 <= k <= xc,
+        val(ys, yc as nat) == yv, 2 * yv >= bp(yc as nat), yv < bp(yc as nat), yv > 0,
+        reciprocal.wf(), reciprocal.shift == 0, reciprocal.divisor_normalized == ys[yc - 1].0,
+        xv == qacc * yv + x_hi.0 as int * bp(k) + val(x@, k),
+        x_hi.0 as int * bp(k) + val(x@, k) < yv * bp((k - yc + 1) as nat),
+        tv(x@, k, xc as nat) == qacc * bp((yc - 1) as nat),
+//@-
 {
+//@+
+    assert(k == xi + 1);
+    let ghost p = (xi + 1 - yc) as nat;
+    let ghost pp = bp(p);
+    let ghost xb = x@;
+    let ghost hb = x_hi.0 as int;
+    let ghost wsc = kn_wsc(xb, hb, k, yc as nat);
+    let ghost qt = kn_qt(xb, hb, k, yc as nat, yv);
+    let ghost rp = wsc - qt * yv * pp;
+    proof { lemma_knuth_top(xb, ys, hb, k, yc as nat, yv); lemma_knuth_top_norm(ys, yc as nat); }
+//@-
         // Divide high dividend words by the high divisor word to estimate the quotient word
         let mut quo = div3by2(x_hi.0, x[xi].0, x[xi - 1].0, &reciprocal, y[yc - 2].0);
+//@+
+    let ghost q = quo as int;
+    proof {
+        lemma_knuth_quo(xb, ys, hb, k, yc as nat, yv, q);
+        assert((qt + 1) * yv * pp == qt * yv * pp + yv * pp) by (nonlinear_arith);
+        assert(0 <= rp < yv * pp);
+    }
+//@-
         // Subtract q*divisor from the dividend
         let borrow = {
             let mut carry = Limb::ZERO;
             let mut borrow = Limb::ZERO;
             let mut tmp;
+//@+
+    proof { assert(q * val(ys, 0) * pp == 0) by (nonlinear_arith) requires val(ys, 0) == 0; assert(0 * bp((p + 0) as nat) == 0); }
+//@-
             for i in 0..yc
+//@+
+    invariant
+        x.len() == xc, y.len() == yc, y@ == ys, xb.len() == xc,
+        2 <= yc <= xc, xi < xc, xi + 1 >= yc, xc + yc <= usize::MAX,
+        p == xi + 1 - yc, pp == bp(p), q == quo as int,
+        borrow.0 == 0 || borrow.0 == u64::MAX,
+        forall|kq: int| 0 <= kq < xc && !(p <= kq < p + VERUS_ghost_iter.index@) ==> x@[kq] == xb[kq],
+        tv(x@, p, (p + VERUS_ghost_iter.index@) as nat) == tv(xb, p, (p + VERUS_ghost_iter.index@) as nat) - q * val(ys, VERUS_ghost_iter.index@ as nat) * pp
+            + carry.0 as int * bp((p + VERUS_ghost_iter.index@) as nat) + bb(borrow) * bp((p + VERUS_ghost_iter.index@) as nat),
+//@-
 {
+//@+
+    let ghost x_before = x@; let ghost carry_b = carry; let ghost borrow_b = borrow;
+//@-
                 let (__t0, __t1) = Limb::ZERO.mac(y[i], Limb(quo), carry); tmp = __t0; carry = __t1;
                 let (__t2, __t3) = x[xi + i + 1 - yc].sbb(tmp, borrow); x[xi + i + 1 - yc] = __t2; borrow = __t3;
+//@+
+    proof {
+        lemma_knuth_sub_step(xb, x_before, x@, ys, p, i as nat, q, carry_b.0 as int, carry.0 as int, bb(borrow_b), bb(borrow), tmp.0 as int);
+    }
+//@-
             }
+//@+
+    let ghost bprev = borrow;
+//@-
             let (_, __t4) = x_hi.sbb(carry, borrow); borrow = __t4;
+//@+
+    proof {
+        assert((bb(borrow) == 1) <==> (hb - carry.0 as int - bb(bprev) < 0));
+        assert((p + yc) as nat == k);
+        lemma_knuth_sub_final(xb, x@, hb, k, yc as nat, yv, q, carry.0 as int, bb(bprev), bb(borrow));
+    }
+//@-
             borrow
         };
+//@+
+    let ghost xs = x@;
+    proof {
+        assert((bb(borrow) == 1) <==> (q == qt + 1));
+        assert(tv(xs, p, k) == (if bb(borrow) == 1 { bp(k) + rp - yv * pp } else { rp }));
+    }
+//@-
         // If the subtraction borrowed, then decrement q and add back the divisor
         // The probability of this being needed is very low, about 2/(Limb::MAX+1)
         quo = {
             let ct_borrow = ConstChoice::from_word_mask(borrow.0);
             let mut carry = Limb::ZERO;
+//@+
+    let ghost m: int = if ct_borrow.t() { 1 } else { 0 };
+    proof { assert(m * val(ys, 0) * pp == 0) by (nonlinear_arith) requires val(ys, 0) == 0; assert(0 * bp((p + 0) as nat) == 0); }
+//@-
             for i in 0..yc
+//@+
+    invariant
+        x.len() == xc, y.len() == yc, y@ == ys, xs.len() == xc,
+        2 <= yc <= xc, xi < xc, xi + 1 >= yc, xc + yc <= usize::MAX,
+        p == xi + 1 - yc, pp == bp(p), ct_borrow.wf(), m == (if ct_borrow.t() { 1int } else { 0int }),
+        forall|kq: int| 0 <= kq < xc && !(p <= kq < p + VERUS_ghost_iter.index@) ==> x@[kq] == xs[kq],
+        tv(x@, p, (p + VERUS_ghost_iter.index@) as nat) + carry.0 as int * bp((p + VERUS_ghost_iter.index@) as nat)
+            == tv(xs, p, (p + VERUS_ghost_iter.index@) as nat) + m * val(ys, VERUS_ghost_iter.index@ as nat) * pp,
+//@-
 {
+//@+
+    let ghost x_before = x@; let ghost carry_b = carry;
+//@-
                 let (__t5, __t6) = x[xi + i + 1 - yc].adc(Limb::select(Limb::ZERO, y[i], ct_borrow), carry); x[xi + i + 1 - yc] = __t5; carry = __t6;
+//@+
+    proof {
+        let sel = if ct_borrow.t() { ys[i as int].0 as int } else { 0int };
+        lemma_knuth_add_step(xs, x_before, x@, ys, p, i as nat, m, sel, carry_b.0 as int, carry.0 as int);
+    }
+//@-
             }
+//@+
+    proof {
+        assert((p + yc) as nat == k);
+        lemma_knuth_add_final(xs, x@, k, yc as nat, yv, m, carry.0 as int, rp);
+    }
+//@-
             ct_borrow.select_word(quo, quo.wrapping_sub(1))
         };
+//@+
+    let ghost xa = x@;
+    proof {
+        assert(quo as int == qt);
+        assert(forall|kq: int| 0 <= kq < xc && !(p <= kq < k) ==> xa[kq] == xb[kq]);
+        assert(tv(xa, p, k) == rp);
+    }
+//@-
         // Store the quotient within dividend and set x_hi to the current highest word
         x_hi = x[xi];
         x[xi] = Limb(quo);
+//@+
+    proof {
+        lemma_knuth_iter_vt(xb, xa, x@, hb, k, yc as nat, xc as nat, yv, qt, qacc, xv);
+        qacc = qacc + qt * pp;
+        k = xi as nat;
+        assert((k - yc + 1) as nat == p);
     }
+//@-
+    }
+//@+
+    // here: k == yc - 1 ; Rem = x_hi * B^(yc-1) + val(x, yc-1) < yv ; xv == qacc * yv + Rem
+    let ghost xq = x@;
+    let ghost rem_n = x_hi.0 as int * bp((yc - 1) as nat) + val(xq, (yc - 1) as nat);
+    proof {
+        assert(k == yc - 1);
+        lemma_bp1(); assert(yv * bp(0) == yv) by (nonlinear_arith) requires bp(0) == 1; assert(rem_n < yv);
+    }
+//@-
     // Copy the remainder to divisor
     y[..yc - 1].copy_from_slice(&x[..yc - 1]);
     y[yc - 1] = x_hi;
+//@+
+    proof {
+        lemma_val_ext(y@, xq, (yc - 1) as nat);
+        assert(val(y@, yc as nat) == rem_n);
+    }
+//@-
     // Unshift the remainder from the earlier adjustment
     shr_limb_vartime(y, lshift);
     // Shift the quotient to the low limbs within dividend
     // let x_size = xc - yc + 1;
     x.copy_within(yc - 1..xc, 0);
     x[xc - yc + 1..].fill(Limb::ZERO);
+//@+
+    proof {
+        let m = (xc - yc + 1) as nat; let d = (yc - 1) as nat;
+        lemma_shift_down(xq, x@, d, xc as nat, m);
+        lemma_val_hi_zero(x@, m, xc as nat);
+        assert((m + d) as nat == xc as nat);
+        lemma_bp_succ(d);
+        assert(val(x@, xc as nat) == qacc) by (nonlinear_arith)
+            requires val(x@, xc as nat) * bp(d) == qacc * bp(d), bp(d) > 0;
+        lemma_val_bound(xq, d);
+        lemma_knuth_unshift(sv, rv, s2, qacc, rem_n, x_hi.0 as int * bp(d), val(xq, d));
+        lemma_fundamental_div_mod_converse(sv, rv, qacc, rem_n / s2);
+    }
+//@-
 }
 //@@ end
+// ---------------------------------------------------------------- BoxedUint (src/uint/boxed.rs): limb division
+// Only the struct and the two free functions of src/uint/boxed/div_limb.rs are mirrored; `BoxedUint::shl_limb`
+// (src/uint/boxed/shl.rs: `vec!`, `Vec -> Box<[Limb]>`) is an assumed callee with the contract of the fixed `Uint::shl_limb`.
 //@@ item src/uint/boxed.rs | struct BoxedUint
 #[derive(Clone)]
 pub struct BoxedUint {
     pub limbs: Box<[Limb]>,
 }
 //@@ end
-//@@ fn src/uint/boxed/shl.rs | impl BoxedUint | shl_limb | stub | props C05 C11
+impl BoxedUint {
+    /// value of all limbs
+    pub open spec fn v(&self) -> int { val(self.limbs@, self.limbs@.len()) }
+}
+
+/// the limbs computed on the fly by the boxed rem_limb_with_reciprocal: u << l, limb by limb
+spec fn shl_seq(ul: Seq<Limb>, l: u32) -> Seq<Limb> {
+    Seq::new(ul.len(), |k: int| if l == 0 { ul[k] } else if k == 0 { Limb(ul[0].0 << l) } else { Limb((ul[k].0 << l) | (ul[k - 1].0 >> ((64 - l) as u32))) })
+}
+
+proof fn lemma_shl_seq(ul: Seq<Limb>, l: u32)
+    requires l < 64, ul.len() >= 1
+    ensures val(shl_seq(ul, l), ul.len()) + (if l == 0 { 0int } else { (ul[ul.len() - 1].0 >> ((64 - l) as u32)) as int }) * bp(ul.len()) == val(ul, ul.len()) * p2(l as nat)
+{
+    let n = ul.len(); let us = shl_seq(ul, l);
+    lemma_pow2_64();
+    if l == 0 {
+        lemma_val_ext(us, ul, n);
+        assert(val(ul, n) * 1 == val(ul, n)) by (nonlinear_arith);
+        assert(0 * bp(n) == 0) by (nonlinear_arith);
+    } else {
+        lemma_shl_limbs(ul, us, n, l);
+    }
+}
+
+//@@ fn src/uint/boxed/shl.rs | impl BoxedUint | shl_limb | stub | props C05 C02 C11
 impl BoxedUint {
 #[verifier::external_body]
 pub fn shl_limb(&self, shift: u32) -> (ret__: (Self, Limb))
+//@+
+    requires self.limbs@.len() >= 1, shift < 64
+    ensures ret__.0.limbs@.len() == self.limbs@.len(),
+        ret__.0.v() + ret__.1.0 as int * bp(self.limbs@.len()) == self.v() * p2(shift as nat), (ret__.1.0 as int) < p2(shift as nat)
+//@-
 {
     unimplemented!()
 }
@@ -147,19 +1179,63 @@ pub fn div_rem_limb_with_reciprocal(
     u: &BoxedUint,
     reciprocal: &Reciprocal,
 ) -> (ret__: (BoxedUint, Limb))
+//@+
+    requires u.limbs@.len() >= 1, reciprocal.wf(), reciprocal.dv() > 0, reciprocal.divisor_normalized as int == reciprocal.dv() * p2(reciprocal.shift as nat)
+    ensures ret__.0.limbs@.len() == u.limbs@.len(),
+        ret__.0.v() * reciprocal.dv() + ret__.1.0 as int == u.v(), (ret__.1.0 as int) < reciprocal.dv(),
+        ret__.0.v() == u.v() / reciprocal.dv(), ret__.1.0 as int == u.v() % reciprocal.dv()
+//@-
 {
     let (mut q, mut r) = u.shl_limb(reciprocal.shift());
+//@+
+    let ghost n = u.limbs@.len();
+    let ghost us = q.limbs@;
+    let ghost dn = reciprocal.divisor_normalized as int;
+    let ghost ps = p2(reciprocal.shift as nat);
+    let ghost total = u.v() * ps;
+    proof {
+        lemma_val_bound(u.limbs@, n); lemma_val_bound(us, n);
+        lemma_pow2_pos(reciprocal.shift as nat);
+        lemma_divlimb_init(val(us, n), r.0 as int, u.v(), ps, reciprocal.dv(), n);
+        lemma_tv_empty_mul(us, n, dn);
+    }
+//@-
     let mut j = u.limbs.len();
     while j > 0
+//@+
+        invariant
+            0 <= j <= n, n == u.limbs@.len(), q.limbs@.len() == n, reciprocal.wf(), dn == reciprocal.divisor_normalized as int, r.0 < reciprocal.divisor_normalized,
+            forall|k: int| 0 <= k < j ==> q.limbs@[k] == us[k],
+            tv(q.limbs@, j as nat, n) * dn + r.0 as int * bp(j as nat) + val(us, j as nat) == total,
+        decreases j
+//@-
 {
         j -= 1;
+//@+
+        let ghost qold = q.limbs@; let ghost r_old = r.0;
+//@-
         let (__t0, __t1) = div2by1(r.0, q.limbs[j].0, reciprocal); q.limbs[j].0 = __t0; r.0 = __t1;
+//@+
+        proof { lemma_divlimb_step(qold, q.limbs@, us, j as nat, n, dn, r_old as int, __t0 as int, __t1 as int, total); }
+//@-
     }
+//@+
+    proof {
+        lemma_bp1();
+        lemma_divlimb_final(val(q.limbs@, n), r.0 as int, u.v(), reciprocal.dv(), ps);
+        lemma_u64_shr_div(r.0, reciprocal.shift);
+        lemma_fundamental_div_mod_converse(u.v(), reciprocal.dv(), val(q.limbs@, n), r.0 as int / ps);
+    }
+//@-
     (q, r >> reciprocal.shift())
 }
 //@@ end
 //@@ fn src/uint/boxed/div_limb.rs | - | rem_limb_with_reciprocal | body | props C02 C11
 pub fn rem_limb_with_reciprocal(u: &BoxedUint, reciprocal: &Reciprocal) -> (ret__: Limb)
+//@+
+    requires u.limbs@.len() >= 1, reciprocal.wf(), reciprocal.dv() > 0, reciprocal.divisor_normalized as int == reciprocal.dv() * p2(reciprocal.shift as nat)
+    ensures ret__.0 as int == u.v() % reciprocal.dv()
+//@-
 {
     let lshift = reciprocal.shift();
     let nz = ConstChoice::from_u32_nonzero(lshift);
@@ -169,16 +1245,82 @@ pub fn rem_limb_with_reciprocal(u: &BoxedUint, reciprocal: &Reciprocal) -> (ret_
             .0
             .wrapping_shr(Limb::BITS - lshift),
     );
+//@+
+    let ghost n = u.limbs@.len();
+    let ghost ul = u.limbs@;
+    let ghost us = shl_seq(ul, lshift);
+    let ghost dn = reciprocal.divisor_normalized as int;
+    let ghost ps = p2(lshift as nat);
+    let ghost total = u.v() * ps;
+    let ghost mut q: Seq<Limb> = Seq::new(n, |k: int| Limb(0));
+    proof {
+        lemma_shl_seq(ul, lshift);
+        lemma_val_bound(ul, n); lemma_val_bound(us, n);
+        lemma_pow2_pos(lshift as nat);
+        assert(lshift != 0 ==> hi == ul[n - 1].0 >> ((64 - lshift) as u32));
+        lemma_divlimb_init(val(us, n), hi as int, u.v(), ps, reciprocal.dv(), n);
+        lemma_tv_empty_mul(q, n, dn);
+    }
+//@-
     let mut lo;
     let mut j = u.limbs.len();
     while j > 1
+//@+
+        invariant
+            1 <= j <= n, n == u.limbs@.len(), ul == u.limbs@, us == shl_seq(ul, lshift), lshift < 64, lshift == reciprocal.shift,
+            nz.wf(), nz.t() == (lshift != 0), rshift == (if lshift != 0 { (64 - lshift) as u32 } else { 0u32 }),
+            reciprocal.wf(), dn == reciprocal.divisor_normalized as int, hi < reciprocal.divisor_normalized,
+            q.len() == n,
+            tv(q, j as nat, n) * dn + hi as int * bp(j as nat) + val(us, j as nat) == total,
+        decreases j
+//@-
 {
         j -= 1;
         lo = u.limbs[j].0 << lshift;
         lo |= nz.if_true_word(u.limbs[j - 1].0 >> rshift);
+//@+
+        let ghost r_old = hi;
+        proof {
+            let a = ul[j as int].0; let b = ul[j - 1].0;
+            if lshift == 0 {
+                assert((a << 0u32) | 0u64 == a) by (bit_vector);
+            }
+            assert(lo == us[j as int].0);
+        }
+//@-
         let (_, __t0) = div2by1(hi, lo, reciprocal); hi = __t0;
+//@+
+        proof {
+            let qj = (r_old as int * B() + us[j as int].0 as int) / dn;
+            lemma_divlimb_quot(r_old as int, us[j as int].0 as int, dn, hi as int);
+            let qold = q;
+            q = q.update(j as int, Limb(qj as u64));
+            lemma_divlimb_step(qold, q, us, j as nat, n, dn, r_old as int, qj, hi as int, total);
+        }
+//@-
     }
+//@+
+    let ghost r_old = hi;
+    proof {
+        let a = ul[0].0;
+        if lshift == 0 { assert(a << 0u32 == a) by (bit_vector); }
+        assert(a << lshift == us[0].0);
+    }
+//@-
     let (_, __t1) = div2by1(hi, u.limbs[0].0 << lshift, reciprocal); hi = __t1;
+//@+
+    proof {
+        let qj = (r_old as int * B() + us[0].0 as int) / dn;
+        lemma_divlimb_quot(r_old as int, us[0].0 as int, dn, hi as int);
+        let qold = q;
+        q = q.update(0, Limb(qj as u64));
+        lemma_divlimb_step(qold, q, us, 0, n, dn, r_old as int, qj, hi as int, total);
+        lemma_bp1();
+        lemma_divlimb_final(val(q, n), hi as int, u.v(), reciprocal.dv(), ps);
+        lemma_u64_shr_div(hi, reciprocal.shift);
+        lemma_fundamental_div_mod_converse(u.v(), reciprocal.dv(), val(q, n), hi as int / ps);
+    }
+//@-
     Limb(hi >> reciprocal.shift())
 }
 //@@ end
